@@ -124,8 +124,14 @@ func (s *ReqScene) ctxFields(tag string, o ReqOpts) {
 	vf.Assume(vf.And(timeout >= 1, timeout < maxH))
 	capAmt := vf.Amount(tag + ".cap")
 	vf.Assume(capAmt.IsPositive())
+	module := ""
+	if o.Module && (o.ModuleOnly || vf.Bool(tag+".module")) {
+		module = Mod
+	}
+	// a context of another module carries a threshold between 1 and the number of its providers; one created by
+	// MsgCallService carries 0 (the handler passes no threshold), which every non-empty batch meets
 	th := vf.Uint32(tag + ".threshold")
-	vf.Assume(vf.And(th >= 1, int(th) <= s.N))
+	vf.Assume(vf.And(vf.Or(th >= 1, module == ""), int(th) <= s.N))
 	bc := vf.Uint64(tag + ".bc")
 	vf.Assume(bc < uint64(maxH))
 	super := vf.Bool(tag + ".super")
@@ -145,10 +151,6 @@ func (s *ReqScene) ctxFields(tag string, o ReqOpts) {
 	if o.AtExpiry && !o.Restart {
 		vf.Assume(vf.Implies(repeated, freq > uint64(timeout)))
 	}
-	module := ""
-	if o.Module && (o.ModuleOnly || vf.Bool(tag+".module")) {
-		module = Mod
-	}
 	st := vf.Uint32(tag + ".state")
 	vf.Assume(st <= 2)
 	state := types.RequestContextState(st)
@@ -158,7 +160,7 @@ func (s *ReqScene) ctxFields(tag string, o ReqOpts) {
 	// between batches the record still carries the counts and the threshold snapshot of the previous batch
 	bth := vf.Uint32(tag + ".batchThreshold")
 	preq, presp := vf.Uint32(tag+".prevRequests"), vf.Uint32(tag+".prevResponses")
-	vf.Assume(vf.All(bth >= 1, bth <= 10, preq <= 10, presp <= preq))
+	vf.Assume(vf.All(bth <= 10, preq <= 10, presp <= preq))
 	s.Pre = types.NewRequestContext(Svc, s.Provs, s.Consumer, InputOK, coins(capAmt), timeout, super, repeated, freq, total,
 		bc, preq, presp, bth, types.BATCHCOMPLETED, state, th, module)
 }
